@@ -789,6 +789,11 @@ def _literals(nf, pol, out):
             return
         if h == 'cmp' and nf[1] in _EQ_NEG and not pol:
             return _literals(sym.mk_cmp(_EQ_NEG[nf[1]], nf[2], nf[3]), True, out)
+        if h == 'and' and not pol:
+            # not (a and b)  is  (not a) or (not b): one spelling for the compound literal
+            parts = tuple(sorted((sym.negate(x) for x in nf[1:]), key=repr))
+            out.add((('or',) + parts, True))
+            return
     out.add((nf, pol))
 
 
